@@ -65,3 +65,39 @@ def p_dec(I, args, kwargs, node):
 
 
 PRIMS['dec'] = p_dec
+
+
+def p_called(I, args, kwargs, node):
+    """called('name'): how many times the contracted callee `name` was invoked on this path"""
+    nm = _m.concretise(args[0])
+    return VInt(len([1 for n, _ in I.ghost.get('calls', []) if n == nm or n.endswith('.' + nm)]))
+
+
+def p_call_arg(I, args, kwargs, node):
+    """call_arg('name', k, 'param'): argument of the k-th call of callee `name`"""
+    nm, k, prm = [_m.concretise(a) for a in args]
+    cs = [b for n, b in I.ghost.get('calls', []) if n == nm or n.endswith('.' + nm)]
+    if k < len(cs):
+        return cs[k][prm]
+    from .values import fresh, parse_ty
+    for c in I.vc.reg.contracts.values():
+        if c.short == nm or c.short.endswith('.' + nm):
+            return fresh(parse_ty(c.params[prm]), 'no_such_call')
+    raise Unsupported('call_arg: unknown callee %s' % nm)
+
+
+PRIMS['called'] = p_called
+PRIMS['call_arg'] = p_call_arg
+
+
+def p_call_result(I, args, kwargs, node):
+    """call_result('name', k): result of the k-th normal return of callee `name` (arbitrary if
+    there was no such call -- guard with called())"""
+    nm, k = [_m.concretise(a) for a in args]
+    rs = [r for n, r in I.ghost.get('results', []) if n == nm or n.endswith('.' + nm)]
+    if k < len(rs):
+        return rs[k]
+    return VInt(z3.Int('no_such_call_%s_%d' % (nm, k)))
+
+
+PRIMS['call_result'] = p_call_result
